@@ -359,6 +359,62 @@ SendHeaderRet ==
                  cst, clast, chdr, ctrl, respMu, reqMu, sendClosed, tmp, probe, got, fst,
                  bud, ncancel, nhdr, ntrl, panicked>>
 
+\* ---- the same operations with EMPTY metadata (operation number 0): nothing is
+\* added to the pending headers, but SendHeader still sends them
+StartSetHeaderE ==
+  /\ HRunning /\ bud["h"] > 0
+  /\ bud' = [bud EXCEPT !["h"] = @ - 1]
+  /\ Goto("h", "she1")
+  /\ Ev_HSetHeaderCall(0) /\ NoViol /\ Emit("HSetHeaderCall", 0, RNil, 0, <<>>)
+  /\ UNCHANGED <<req, reqClosed, resp, respClosed, svrDone, svrExit, sprop, sst, shdr, strl, smu,
+                 cst, clast, chdr, ctrl, respMu, reqMu, sendClosed, tmp, probe, got, fst,
+                 ncancel, nhdr, ntrl, panicked>>
+
+SetHeaderDoE ==
+  /\ pc["h"] = "she1" /\ smu = ""
+  /\ Goto("h", "idle")
+  \* (the stream's own SetHeader refuses after the headers were sent; the
+  \* helper grpc.SetHeader(ctx, md) returns nil for empty metadata at once)
+  /\ \E ok \in (IF sst = "H" THEN {TRUE} ELSE BOOLEAN) :
+       Ev_HSetHeaderRet(0, ok) /\ Viol(Chk_HSetHeaderRet(0, ok)) /\ Emit("HSetHeaderRet", 0, IF ok THEN RNil ELSE RMisuse, 0, <<>>)
+  /\ UNCHANGED <<req, reqClosed, resp, respClosed, svrDone, svrExit, sprop, sst, shdr, strl, smu,
+                 cst, clast, chdr, ctrl, respMu, reqMu, sendClosed, tmp, probe, got, fst,
+                 bud, ncancel, nhdr, ntrl, panicked>>
+
+StartSendHeaderE ==
+  /\ HRunning /\ bud["h"] > 0
+  /\ bud' = [bud EXCEPT !["h"] = @ - 1]
+  /\ Goto("h", "dhe1")
+  /\ Ev_HSendHeaderCall(0) /\ NoViol /\ Emit("HSendHeaderCall", 0, RNil, 0, <<>>)
+  /\ UNCHANGED <<req, reqClosed, resp, respClosed, svrDone, svrExit, sprop, sst, shdr, strl, smu,
+                 cst, clast, chdr, ctrl, respMu, reqMu, sendClosed, tmp, probe, got, fst,
+                 ncancel, nhdr, ntrl, panicked>>
+
+SendHeaderLockE ==
+  /\ pc["h"] = "dhe1" /\ smu = ""
+  /\ IF sst # "H"
+       THEN /\ Goto("h", "idle") /\ UNCHANGED smu
+            /\ Ev_HSendHeaderRet(0, FALSE) /\ Viol(Chk_HSendHeaderRet(0, FALSE)) /\ Emit("HSendHeaderRet", 0, RMisuse, 0, <<>>)
+       \* (sendHeadersLocked writes a headers frame only if there are headers)
+       ELSE /\ Goto("h", IF shdr # <<>> THEN "dhe2" ELSE "dhe3") /\ smu' = "h"
+            /\ UNCHANGED vars /\ NoViol /\ Quiet
+  /\ UNCHANGED <<req, reqClosed, resp, respClosed, svrDone, svrExit, sprop, sst, shdr, strl,
+                 cst, clast, chdr, ctrl, respMu, reqMu, sendClosed, tmp, probe, got, fst,
+                 bud, ncancel, nhdr, ntrl, panicked>>
+
+SendHeaderSelectE == HdrSelect("h", "dhe2", "dhe3")
+
+SendHeaderRetE ==
+  /\ pc["h"] = "dhe3"
+  /\ Goto("h", "idle") /\ smu' = ""
+  /\ LET ok == ~SDone \/ shdr = <<>> IN
+       /\ shdr' = IF ok THEN <<>> ELSE shdr
+       /\ sst' = IF ok THEN "M" ELSE sst
+       /\ Ev_HSendHeaderRet(0, ok) /\ Viol(Chk_HSendHeaderRet(0, ok)) /\ Emit("HSendHeaderRet", 0, IF ok THEN RNil ELSE RMisuse, 0, <<>>)
+  /\ UNCHANGED <<req, reqClosed, resp, respClosed, svrDone, svrExit, sprop, strl,
+                 cst, clast, chdr, ctrl, respMu, reqMu, sendClosed, tmp, probe, got, fst,
+                 bud, ncancel, nhdr, ntrl, panicked>>
+
 SetTrailerDo ==
   /\ HRunning /\ bud["h"] > 0 /\ ntrl < MaxTrl /\ smu = ""
   /\ bud' = [bud EXCEPT !["h"] = @ - 1] /\ ntrl' = ntrl + 1
@@ -603,6 +659,7 @@ Next ==
   \/ StartHRecv \/ HRecvSelect \/ HRecvCheck
   \/ StartHSend \/ HSendLock \/ HSendHdrSelect \/ HSendHdrRet \/ HSendDataSelect \/ HSendRet
   \/ StartSetHeader \/ SetHeaderDo \/ StartSendHeader \/ SendHeaderLock \/ SendHeaderSelect \/ SendHeaderRet
+  \/ StartSetHeaderE \/ SetHeaderDoE \/ StartSendHeaderE \/ SendHeaderLockE \/ SendHeaderSelectE \/ SendHeaderRetE
   \/ SetTrailerDo
   \/ \E s \in Statuses : HReturnDo(s)
   \/ FinLock \/ FinH \/ FinT \/ FinE \/ FinClose
@@ -624,6 +681,7 @@ Fair ==
   /\ WF_allvars(HRecvSelect \/ HRecvCheck)
   /\ WF_allvars(HSendLock \/ HSendHdrSelect \/ HSendHdrRet \/ HSendDataSelect \/ HSendRet)
   /\ WF_allvars(SetHeaderDo \/ SendHeaderLock \/ SendHeaderSelect \/ SendHeaderRet)
+  /\ WF_allvars(SetHeaderDoE \/ SendHeaderLockE \/ SendHeaderSelectE \/ SendHeaderRetE)
   /\ WF_allvars(FinLock \/ FinH \/ FinT \/ FinE \/ FinClose)
   /\ WF_allvars(HeaderLock \/ HeaderSelect \/ HeaderCheck)
   /\ WF_allvars(RecvLock \/ RecvPeeked \/ RecvSelect \/ RecvCheck)
